@@ -116,6 +116,8 @@ def run(c, facts, tier):
     for key, fn in facts.fns.items():
         if fn.test or "Parser<" not in fn.node["output"]:
             continue
+        if [n for n, _ in fn.params]:
+            continue  # a parser *builder* (generic `unary(..)`): expanded at each call site, not a word parser
         fb = b.fn_ir(key)
         if fb.get("returns_parser"):
             for a in flat_alts(fb["tail"]):
@@ -211,6 +213,8 @@ def run(c, facts, tier):
     for key, fn in facts.fns.items():
         if fn.test or "Parser<" not in fn.node["output"]:
             continue
+        if [n for n, _ in fn.params]:
+            continue  # a parser builder, expanded at its call sites
         fb = b.fn_ir(key)
         if not fb.get("returns_parser"):
             continue
